@@ -173,6 +173,7 @@ type gsWorld struct {
 	fep            bool
 	fepFrom        uint64
 	reorged        bool
+	dl             sync.Downloader
 	ctl            *sql.DB // second connection: arms the one-shot storage fault of `poll!`
 	faulted        int
 }
@@ -210,9 +211,14 @@ func (w *gsWorld) startDownloader() {
 	if w.fep {
 		mode = lastgersync.FEP
 	}
-	d, err := lastgersync.VerifNewDownloader(mode, w.cl, gsAddr, w.q, w.p,
-		&sync.RetryHandler{RetryAfterErrorPeriod: time.Millisecond, MaxRetryAttemptsAfterError: -1}, finality, time.Millisecond)
-	must(err)
+	// as in the node: ONE downloader object per process; after a reorg the driver calls Download on it again
+	// (only a restart of the node creates a new one)
+	if w.dl == nil {
+		w.dl, err = lastgersync.VerifNewDownloader(mode, w.cl, gsAddr, w.q, w.p,
+			&sync.RetryHandler{RetryAfterErrorPeriod: time.Millisecond, MaxRetryAttemptsAfterError: -1}, finality, time.Millisecond)
+		must(err)
+	}
+	d := w.dl
 	ctx, cancel := context.WithCancel(context.Background())
 	w.cancel = cancel
 	w.ch = make(chan sync.EVMBlock, 100000)
@@ -404,6 +410,7 @@ func (w *gsWorld) exec(r *Run, line string) string {
 		w.startDownloader()
 	case "restart":
 		w.stopDownloader()
+		w.dl = nil
 		w.startDownloader()
 		obs = "ok"
 	case "q":
